@@ -3,6 +3,7 @@ import Driver.C17
 import Driver.C05
 import Driver.Ref
 import Driver.C19
+import Driver.C06
 
 open Driver
 
@@ -30,6 +31,9 @@ def main (args : List String) : IO UInt32 := do
     return 0
   | ["c19queue"] =>
     forLines stdin fun l => stdout.putStrLn (c19Queue (fields l))
+    return 0
+  | ["c06"] =>
+    forLines stdin fun l => stdout.putStrLn (c06Line (fields l))
     return 0
   | _ =>
     IO.eprintln "usage: cbdriver <cmd>"
